@@ -52,7 +52,7 @@ def selftest():
 
 def REQUIRED_COVER(tier):
     return ({f'pruned-mask:{m}' for m in range(1, 8)} | {f'ancestor-mask:{m}' for m in range(1, 8)} |
-            {'type:lib', 'type:mproof', 'type:mupdate', 'layers:3', 'route:boc', 'route:boc+hashes'})
+            {'type:lib', 'type:mproof', 'type:mupdate', 'layers:3', 'route:boc', 'route:boc+hashes', 'update:sides-differ', 'update:sides-equal'})
 
 
 # ------------------------------------------------------------------ terms
@@ -217,11 +217,40 @@ def case_raw(rec, mask_a, mask_b, wrap):
     check_tree(rec, t, 'case_raw', args, 'raw')
 
 
+def case_raw_update(rec, mask_old, mask_new, wrap):
+    """Merkle update whose old side holds a pruned cell with mask_old (0 = none) and whose new side one with mask_new,
+    below `wrap` Merkle proofs: all 64 (old, new) pairs - the update's mask is ((old | new) >> 1)"""
+    rec.case('raw-update')
+    args = {'mask_old': mask_old, 'mask_new': mask_new, 'wrap': wrap}
+    seed = rec.seed
+
+    def side(mask, tag):
+        kids = []
+        if mask:
+            n = bin(mask).count('1')
+            hs = [filler(seed, f'c02u-{tag}-{mask}-{i}', 32) for i in range(n)]
+            ds = [int.from_bytes(filler(seed, f'c02ud-{tag}-{mask}-{i}', 2), 'big') % 1000 for i in range(n)]
+            kids.append(RC.pruned_raw(mask, hs, ds))
+        kids.append(RC.RCell('1' if tag == 'o' else '0'))
+        return RC.RCell('0101' if tag == 'o' else '1010', kids)
+    t = RC.RCell('11', (RC.mupdate(side(mask_old, 'o'), side(mask_new, 'n')), RC.library(bytes(32))))
+    for _ in range(wrap):
+        t = RC.RCell('11', (RC.mproof(t), RC.library(bytes(32))))
+    rec.state(('raw-update', mask_old, mask_new, wrap))
+    rec.nontriv(('raw-update', mask_old, mask_new, wrap))
+    if check_tree(rec, t, 'case_raw_update', args, 'raw-update'):
+        rec.covered('update:sides-differ' if mask_old != mask_new else 'update:sides-equal')
+
+
 def shard_raw(rec):
     for a in range(1, 8):
         for b in range(0, 8):
             for wrap in (0, 1, 2, 3):
                 case_raw(rec, a, b, wrap)
+    for a in range(0, 8):
+        for b in range(0, 8):
+            for wrap in (0, 1, 2, 3):
+                case_raw_update(rec, a, b, wrap)
     rec.sample({'raw_pruned_masks': [6, 5], 'parent': 'ordinary', 'merkle_wrappers': 2})
 
 
